@@ -100,14 +100,27 @@ CtrlAction(f, p, ml) == ToController(f, p, "action", ml) /\ UNCHANGED missLen
 \* PACKET_OUT / FLOW_MOD naming buffer s.  Occupied: the stored frame leaves
 \* through act (relative to ITS ingress port) and the slot is freed.
 \* Free / never issued: nothing is emitted and nothing changes.
-Use(kind, s, act) ==
+\* how: the form of the message that names the buffer.  For a FLOW_MOD the buffered packet is handled the
+\* same way whatever the command does to the table (OpenFlow 1.0 5.3.3: buffer_id is meaningful for ADD and
+\* both MODIFY commands): "add" a new entry, "addsame" replace an identical one, "mod" / "modstrict" rewrite
+\* an existing entry, "modnew" / "modstrictnew" find none and add.  A PACKET_OUT has one form ("-").
+FmHows == {"add", "addsame", "mod", "modnew", "modstrict", "modstrictnew"}
+Hows(kind) == IF kind = "FlowMod" THEN FmHows ELSE {"-"}
+\* The form does not change the outcome, so exploring all six at every step would only multiply the graph.
+\* Next uses ONE form per step, picked by a function of the state that runs through all of them (a
+\* concretisation defined here, in the spec, so that the exported behaviours carry it); the trace spec
+\* accepts whatever form the recorded step used.
+HowSeq == <<"add", "addsame", "mod", "modnew", "modstrict", "modstrictnew">>
+PickHow(kind, s, n) ==
+  IF kind = "FlowMod" THEN HowSeq[((s + n + Cardinality(FreeSlots) + (missLen % 7)) % 6) + 1] ELSE "-"
+Use(kind, s, act, how) ==
   /\ UNCHANGED missLen
   /\ IF s \in 1..N /\ pool[s] # Free
      THEN /\ pool' = [pool EXCEPT ![s] = Free]
-          /\ Log(kind, [buf |-> s, act |-> act],
+          /\ Log(kind, [buf |-> s, act |-> act, how |-> how],
                  [emitted |-> {Em(q, pool[s].c) : q \in Emit(act, pool[s].p)}])
      ELSE /\ UNCHANGED pool
-          /\ Log(kind, [buf |-> s, act |-> act], [emitted |-> {}])
+          /\ Log(kind, [buf |-> s, act |-> act, how |-> how], [emitted |-> {}])
 
 \* PACKET_OUT carrying its own data and no buffer id: pool untouched.
 PacketOutData(f, p, act) ==
@@ -170,15 +183,15 @@ NBuf(acts) == Cardinality({i \in DOMAIN acts : acts[i] \in {"ctl", "table"}})
 \* Whether a packet which the list itself sends to the controller may already take the slot being used is
 \* not something the property settles, so the step is left out where that would make a visible difference
 \* (fewer free slots than the list needs).
-UseL(kind, s, acts) ==
+UseL(kind, s, acts, how) ==
   /\ UNCHANGED missLen
   /\ IF s \in 1..N /\ pool[s] # Free
      THEN /\ NBuf(acts) <= Cardinality(FreeSlots)
           /\ LET st == RunL(acts, St0(pool[s].c, pool), pool[s].p, missLen) IN
              /\ pool' = [st.pool EXCEPT ![s] = Free]
-             /\ Log(kind \o "L", [buf |-> s, acts |-> acts], [emitted |-> Bag(st.em), pins |-> st.pins])
+             /\ Log(kind \o "L", [buf |-> s, acts |-> acts, how |-> how], [emitted |-> Bag(st.em), pins |-> st.pins])
      ELSE /\ UNCHANGED pool
-          /\ Log(kind \o "L", [buf |-> s, acts |-> acts], [emitted |-> {}, pins |-> <<>>])
+          /\ Log(kind \o "L", [buf |-> s, acts |-> acts, how |-> how], [emitted |-> {}, pins |-> <<>>])
 
 \* PACKET_OUT carrying its own data, with an action list
 PacketOutDataL(f, p, acts) ==
@@ -194,15 +207,15 @@ RxL(f, p, acts) ==
      /\ pool' = st.pool
      /\ Log("RxL", [f |-> f, p |-> p, acts |-> acts], [emitted |-> Bag(st.em), pins |-> st.pins])
 
-NextL == \/ \E s \in (1..N) \cup BogusIds, a \in ListsPO : UseL("PacketOut", s, a)
-         \/ \E s \in (1..N) \cup BogusIds, a \in ListsFM : UseL("FlowMod", s, a)
+NextL == \/ \E s \in (1..N) \cup BogusIds, a \in ListsPO : UseL("PacketOut", s, a, "-")
+         \/ \E s \in (1..N) \cup BogusIds, a \in ListsFM : UseL("FlowMod", s, a, PickHow("FlowMod", s, Len(a)))
          \/ \E f \in Frames, p \in Ports, a \in ListsPO : PacketOutDataL(f, p, a)
          \/ \E f \in Frames, p \in Ports, a \in ListsFM : RxL(f, p, a)
 
 Next1 == \/ \E f \in Frames, p \in Ports : Miss(f, p)
          \/ \E f \in Frames, p \in Ports, ml \in MaxLens : CtrlAction(f, p, ml)
          \/ \E k \in {"PacketOut", "FlowMod"}, s \in (1..N) \cup BogusIds,
-               a \in Acts : Use(k, s, a)
+               a \in Acts : Use(k, s, a, PickHow(k, s, Len(a)))
          \/ \E f \in Frames, p \in Ports, a \in Acts : PacketOutData(f, p, a)
          \/ \E f \in Frames, p \in Ports : MissViaTable(f, p)
          \/ \E ml \in MissLens : SetConfig(ml)
